@@ -58,7 +58,7 @@ theorem zshape_spec (i : Int) :
     Gen.waveZshapeFwt i % 2 = 0 ∧ i ≤ Gen.waveZshapeFwt i ∧ Gen.waveZshapeFwt i - i = i % 2 := by
   unfold Gen.waveZshapeFwt
   try simp only [pyDiv_of_pos _ (show (0 : Int) < 2 by decide), pyMod_of_pos _ (show (0 : Int) < 2 by decide)]
-  omega
+  first | omega | (split_ifs <;> omega)
 
 set_option linter.unusedSimpArgs false in
 /-- the padding formula of `get_wavelet_shape` and the one of `fwt` give the same length for every axis
@@ -66,26 +66,45 @@ set_option linter.unusedSimpArgs false in
 theorem zshape_sites_agree (i : Int) : Gen.waveZshapeShape i = Gen.waveZshapeFwt i := by
   unfold Gen.waveZshapeShape Gen.waveZshapeFwt
   try simp only [pyDiv_of_pos _ (show (0 : Int) < 2 by decide), pyMod_of_pos _ (show (0 : Int) < 2 by decide)]
-  try omega
+  try (first | omega | (split_ifs <;> omega))
 
 /-- `get_wavelet_shape` (hence `Wavelet.oshape`, `InverseWavelet.ishape` and the stored `coeff_slices`)
     and `fwt` pad to the same even shape and make the same `wavedecn(..., mode='zero', axes, level)` and
     `coeffs_to_array(..., axes)` calls on an array of that shape: the advertised coefficient shape is
-    computed exactly like the actual one.  (Structure statement about the regenerated call signatures.) -/
+    computed exactly like the actual one.  (Structure statement about the regenerated DATA FLOW of the two
+    functions: every local name is replaced by the expression it holds, private helpers are inlined and call
+    arguments are bound to the callee's parameter names, so this is a statement about what is computed, not about
+    how the source spells it - see harness/translate/gen_c10.py.  `<zshape>` = the padded shape, whose element
+    formula is `Gen.waveZshape*`, taken over the shape of the array being padded; `<dec>` = the value of the
+    `wavedecn` call.) -/
 theorem shape_consistent :
     Gen.waveZshapeShape = Gen.waveZshapeFwt ∧ Gen.waveDecCallShape = Gen.waveDecCallFwt ∧
     Gen.wavePackCallShape = Gen.wavePackCallFwt ∧
-    Gen.waveDecCallFwt = ["wavedecn", "shape:zshape", "arg:wave_name", "axes=axes", "level=level", "mode='zero'"] ∧
-    Gen.wavePackCallFwt = ["coeffs_to_array", "arg:<wavedecn result>", "axes=axes"] ∧
-    Gen.wavePadCallFwt = ["util.resize", "arg:input", "arg:zshape"] :=
+    Gen.waveDecCallFwt = ["wavedecn", "shape:<zshape>", "wavelet=wave_name", "mode='zero'", "level=level", "axes=axes"] ∧
+    Gen.wavePackCallFwt = ["coeffs_to_array", "coeffs=<dec>", "padding=0", "axes=axes"] ∧
+    Gen.wavePadCallFwt = ["resize", "input=backend.to_device(input=input, device=backend.cpu_device)", "oshape=<zshape>",
+      "ishift=None", "oshift=None"] :=
   ⟨funext zshape_sites_agree, rfl, rfl, rfl, rfl, rfl⟩
 
-/-- `iwt` mirrors `fwt`: it unpacks with the stored slices, reconstructs with the same wavelet, the same
-    `mode='zero'` and the same `axes`, and centre-crops to `oshape` with the default shifts. -/
+/-- `iwt` mirrors `fwt`: it unpacks (the input moved to the CPU) with the stored slices, reconstructs from exactly
+    those coefficients with the same wavelet, the same `mode='zero'` and the same `axes`, and centre-crops the
+    reconstruction to `oshape` with the default shifts. -/
 theorem inverse_mirrors_forward :
-    Gen.waveUnpackCallIwt = ["array_to_coeffs", "arg:input", "arg:coeff_slices", "output_format='wavedecn'"] ∧
-    Gen.waveRecCallIwt = ["waverecn", "arg:input", "arg:wave_name", "axes=axes", "mode='zero'"] ∧
-    Gen.waveCropCallIwt = ["resize", "arg:output", "arg:oshape"] :=
+    Gen.waveUnpackCallIwt = ["array_to_coeffs", "arr=backend.to_device(input=input, device=backend.cpu_device)",
+      "coeff_slices=coeff_slices", "output_format='wavedecn'"] ∧
+    Gen.waveRecCallIwt = ["waverecn", "coeffs=<unpack>", "wavelet=wave_name", "mode='zero'", "axes=axes"] ∧
+    Gen.waveCropCallIwt = ["resize", "input=<rec>", "oshape=oshape", "ishift=None", "oshift=None"] :=
+  ⟨rfl, rfl, rfl⟩
+
+/-- What the three functions RETURN (regenerated data flow): `get_wavelet_shape` returns the shape of the packed
+    array together with the slices of the very same `coeffs_to_array` call; `fwt` returns the packed array (first
+    component of its `coeffs_to_array` call) moved back to the device of the input; `iwt` returns the cropped
+    reconstruction moved back to the device of the input.  Nothing else is applied to the values on the way out
+    (a cast, a slice, another element of the pair would change these strings). -/
+theorem glue_returns :
+    Gen.waveRetShape = ["(<pack>[0].shape, <pack>[1])"] ∧
+    Gen.waveRetFwt = ["backend.to_device(input=<pack>[0], device=backend.get_device(array=input))"] ∧
+    Gen.waveRetIwt = ["backend.to_device(input=<crop>, device=backend.get_device(array=input))"] :=
   ⟨rfl, rfl, rfl⟩
 
 /-- Which end receives the extra zero: padded index `k` holds input index `j` exactly when
